@@ -14,7 +14,10 @@ import) and the independent OSC decoder vf/osc.py:
   play      programs that play 1-5 events (event.play / play(dict) / play(**kw))
             from the main thread or from routines on SystemClock / TempoClock(1)
             with server latency in {0 .. 1}: decoded `.raw` score and `.list`
-            score vs. expected /s_new and gate-off bundles.
+            score vs. expected /s_new and gate-off bundles.  A third of the
+            programs are multi-step histories on event objects: play, edit
+            (set / add / delete keys, change instrument), play again, copy() +
+            edit + play; every play must carry the object's current values.
   timeline  Pbind/Pmono/Ppar/Pchain/Pdur/Pdelta compositions played by
             Pattern.play: every expected event at start + sum of previous
             deltas (+ latency), rests silent, Pmono set/release traffic, total
@@ -36,8 +39,12 @@ RULE = ("seeded random cases. chain: explicit key sets over the pitch "
         "amplitude (amp/db/velocity) and duration (dur/stretch/legato/sustain/"
         "delta) keys, int and float values; non-trivial = at least two keys of "
         "one chain or a precedence conflict. play: 1-5 events on 8 on-the-fly "
-        "instruments (half with gate) at routine times, 8 latencies; non-trivial "
-        "= gate and gateless instruments or non-zero latency/start. timeline: "
+        "instruments (half with gate) at routine times, 8 latencies; a third of "
+        "the programs are histories on event objects (play, set/add/delete "
+        "keys or change the instrument, play again; copy() + edits, play), each "
+        "play checked against the keys the object defines at that moment; "
+        "non-trivial = gate and gateless instruments or non-zero latency/start "
+        "or a replayed object. timeline: "
         "compositions of depth <= 3 over Pseq/Pser/Pseries columns; non-trivial "
         "= at least one combinator or a rest. Distinct = hash of the spec. "
         "Restricted to inputs where the SuperCollider documentation and the "
@@ -60,6 +67,8 @@ MIN_COUNTERS = {
     'quick': {'chain_lookups_compared': 10000, 'scale_keys_compared': 3000,
               'play_s_new_checked': 5000, 'play_gate_off_checked': 2000,
               'play_no_gate_checked': 2000, 'play_control_values_checked': 10000,
+              'play_replay_s_new_checked': 1000, 'play_replay_copy': 200,
+              'play_replay_replay': 200,
               'tl_s_new_checked': 4000, 'tl_rests_silent': 300,
               'tl_total_duration_checked': 800, 'tl_with_ppar': 300,
               'tl_with_pdur_clipping': 40, 'tl_with_pdelta': 200,
@@ -68,6 +77,8 @@ MIN_COUNTERS = {
                  'play_s_new_checked': 80000, 'play_gate_off_checked': 30000,
                  'play_no_gate_checked': 30000,
                  'play_control_values_checked': 200000,
+                 'play_replay_s_new_checked': 20000, 'play_replay_copy': 4000,
+                 'play_replay_replay': 4000,
                  'tl_s_new_checked': 50000, 'tl_rests_silent': 3000,
                  'tl_total_duration_checked': 15000, 'tl_with_ppar': 5000,
                  'tl_with_pdur_clipping': 1000, 'tl_with_pdelta': 3000,
@@ -295,7 +306,10 @@ def run_play(spec, acc):
         prog = gen.play_program(rng, insts, tags)
         gates = {info[s['event']['instrument']]['gate'] for s in prog['steps']}
         acc.case(h64(repr(prog)), nontrivial=len(gates) == 2
-                 or prog['latency'] > 0 or prog['where'] != 'main')
+                 or prog['latency'] > 0 or prog['where'] != 'main'
+                 or prog.get('history', False))
+        if prog.get('history'):
+            acc.count('play_history_programs')
         acc.count(f"play_where_{prog['where']}")
         acc.count('play_latency_nonzero' if prog['latency'] else
                   'play_latency_zero')
